@@ -111,6 +111,10 @@ type runner struct {
 
 var tBuild, tOpen, tClose time.Duration
 
+// how many generated trees satisfy the decidable hypotheses of the Lean theorem C06_parse_sem_partial_wf
+var coveredCases int
+var uncovered = map[string]int{}
+
 func newRunner(repos []q2lib.Repo) *runner {
 	dir, err := os.MkdirTemp(os.Getenv("VERIF_WORK"), "c06idx")
 	if err != nil {
@@ -215,6 +219,11 @@ func (rn *runner) runCase(g q2lib.Qy) gen.Case {
 	default:
 		c.Go = "ok"
 	}
+	if cov, why := q2lib.Covered(g); cov {
+		coveredCases++
+	} else {
+		uncovered[why]++
+	}
 	nsel := strings.Count(impl, "1")
 	c.Nontrivial = nsel > 0 && nsel < len(rn.docs)
 	c.Detail = gen.Detail(map[string]any{"query": s, "parsed": tree, "corpus": rn.repos, "g": g.Encode()})
@@ -297,6 +306,10 @@ func main() {
 			}
 		}
 		rn.close()
+	}
+	w.Count("covered-by-C06_parse_sem_partial", coveredCases)
+	for why, n := range uncovered {
+		w.Count("not-covered:"+why, n)
 	}
 	w.Count("ms-build-shards", int(tBuild.Milliseconds()))
 	w.Count("ms-open-searcher", int(tOpen.Milliseconds()))
